@@ -658,7 +658,7 @@ func e5Compare(c *Collector, r *E5Row, key, pos string, got, want *Sym, hint, wh
 	}
 	res := compareSyms(got, want, hint)
 	if res.Equal {
-		c.Ob(r.Props, "E5.decision", key, Discharged, fmt.Sprintf("%s: code ≡ table on %d valuations of %d terms; code term: %s", what, res.Evaluations, len(res.Terms), clip(got.String(), 200)), pos, true)
+		c.Ob(r.Props, "E5.decision", key, Discharged, fmt.Sprintf("%s: code ≡ table on %d valuations of %d terms [%s]; code term: %s", what, res.Evaluations, len(res.Terms), clip(strings.Join(res.Terms, "; "), 300), clip(got.String(), 200)), pos, true)
 		return true
 	}
 	c.Ob(r.Props, "E5.decision", key, Violated, fmt.Sprintf("%s: code and table differ at [%s]: code gives %s, table gives %s; code term: %s; table term: %s",
